@@ -143,6 +143,23 @@ impl ScriptActor {
                 _ => cmds.push(Cm::Send(*r.pick(&self.observers), (r.below(1000) * 7 + 6) as u32)),
             }
         }
+        // a timeout handler often cancels the OTHER timers first: if they are overdue as well (the loop was held up by
+        // a slow handler, see `on_msg`) they must stay silent all the same
+        // directed: arm all three timers with short delays and send oneself the message that makes the next handler slow
+        if kind == 1 && b % 5 == 2 && count < 15 && !self.actors.is_empty() {
+            for k in 0..3u8 {
+                let d = (30 + 10 * k as u64) * 1_000_000;
+                cmds.push(Cm::Set(k, d, d));
+            }
+            cmds.push(Cm::Send(self.actors[self.idx], 3));
+        }
+        if kind == 2 && r.below(2) == 0 {
+            for k in (0..3u8).rev() {
+                if k as u64 != a {
+                    cmds.insert(0, Cm::Cancel(k));
+                }
+            }
+        }
         (new_st, cmds)
     }
     fn emit(&self, head: String, new_st: u32, cmds: Vec<Cm>, o: &mut AOut<Self>) {
@@ -194,6 +211,10 @@ impl Actor for ScriptActor {
         let (st, cmds) = self.behave(1, st_in, usize::from(src) as u64, msg as u64);
         self.emit(format!("msg {} {} {} {}", t, st_in, usize::from(src), msg), st, cmds, o);
         *state.to_mut() = st;
+        // a slow handler now and then: every timer due within the next 160 ms is overdue when the loop gets control back
+        if msg % 5 == 3 {
+            std::thread::sleep(Duration::from_millis(160));
+        }
     }
     fn on_timeout(&self, _id: Id, state: &mut Cow<u32>, timer: &u8, o: &mut AOut<Self>) {
         let t = now_ns();
